@@ -197,7 +197,8 @@ ROUND3 = {
     "C06": "Round 3: sells whose minimum fee exceeds the proceeds filled in pieces (K23), default_pair_info only (K27), "
            "stop-limit boundary with stop != limit.",
     "C07": "Round 3: roll-back of an auto-borrow request at its second loan with a minimum interest and the margin level at "
-           "exactly 100% (K31; found a genuine defect, repaired).",
+           "exactly 100% (K31; found a genuine defect, repaired). Round 5: loans whose interest cannot be priced yet (K37; a second "
+           "genuine defect, repaired).",
     "C08": "Round 3: 1% volume limit (K28), default_pair_info only (K26), derived pair precisions with a finer base grid and "
            "amounts valid on both grids (K29), pair grid finer than the symbol grid (K24); fills are checked against the grid "
            "of THEIR pair.",
